@@ -337,8 +337,6 @@ def _c04_specials():
                     _merge(allc, {"detect_minimal_iri": True, "examples_mode": "all"})):
             for as_file in (False, True):
                 for text in ("", "\n"):
-                    if text and fmt == "tsv_spo":
-                        continue       # a TSV file holding one blank line crashes the unchanged tree (pre-existing, reported): excluded
                     inp_e = {"format": fmt, "text": text}
                     if as_file:
                         inp_e["as_file"] = True
@@ -1376,6 +1374,7 @@ def check_C15(case, B):
     extra = case.get("extra") or {}              # e.g. {"limit_remote_instances": 2, "instances_cap": 4}: given to BOTH runs
     selkw = _merge(_c15_selection(sel), extra)
     spec, l2c = _c15_spec(T, sel, inv, extra)
+    expect = case.get("expect")                  # dedicated families of known root causes: their differences get their own keys
     colliding = case.get("by_class_iri")         # classes with one local name: their shapes share a label (known, C05) and are told apart
     if colliding:                                # by the class IRI of their rdf:type value set
         l2c = dict((("class:" + C) if C in colliding else lab, C) for lab, C in
@@ -1416,10 +1415,23 @@ def check_C15(case, B):
             try:
                 out = relabel(U.norm_doc(B.parse(B.call(lambda cfg=cfg: SU.shex(SU.new_shaper({"endpoint": SU.FAKE_ENDPOINT}, cfg), SHEXC, 0)))))
             except U.Skipped as exc:
-                emit("C15:endpoint-run-fails:%s" % SU.slug(exc.signature, 50), "the endpoint run (disable_endpoint_cache=%r) fails with %s while the local "
-                     "run succeeds" % (cache_off, exc.signature), queries=list(ep.log)[:8])
+                if expect == "url-looking-literal" and "ParseException" in exc.signature and _literal_queries(ep.log, T):
+                    emit("C15:url-looking-literal-read-as-iri:%s" % sel["kind"], "a plain string literal whose text starts with http:// or https:// is read "
+                         "as an IRI over the endpoint; with track_classes_for_entities_at_last_depth_level sheXer then asks for its classes with %r, "
+                         "which is not SPARQL (blank inside <>): the endpoint run fails with %s, the local run succeeds"
+                         % (_literal_queries(ep.log, T)[0], exc.signature), queries=list(ep.log)[:8])
+                elif expect == "object-focus-literals" and "ParseException" in exc.signature and _literal_queries(ep.log, T):
+                    emit("C15:object-focus-selects-literals:invalid-query", "a {_ p FOCUS} selector over the endpoint also selects LITERAL objects; sheXer then "
+                         "sends %r, which is not SPARQL (blank inside <>): the endpoint run fails with %s, the local run succeeds"
+                         % (_literal_queries(ep.log, T)[0], exc.signature), queries=list(ep.log)[:8])
+                else:
+                    emit("C15:endpoint-run-fails:%s" % SU.slug(exc.signature, 50), "the endpoint run (disable_endpoint_cache=%r) fails with %s while the "
+                         "local run succeeds" % (cache_off, exc.signature), queries=list(ep.log)[:8])
                 continue
             res[cache_off] = (out, list(ep.log))
+            if expect == "object-focus-literals" and not cache_off and _literal_queries(ep.log, T):
+                emit("C15:object-focus-selects-literals:literal-queried-as-iri", "a {_ p FOCUS} selector over the endpoint also selects LITERAL objects "
+                     "and asks for their neighbourhood as if they were IRIs: %r" % _literal_queries(ep.log, T)[:3], queries=list(ep.log)[:8])
     if False in res and True in res:
         (a, qa), (b, qb) = res[False], res[True]
         if len(qa) > len(qb):
@@ -1446,6 +1458,12 @@ def check_C15(case, B):
                 linked = set(("direct", tr[1]) for tr in links) | set(("inverse", tr[1]) for tr in links)
                 if all(d[2] and d[2] <= linked for d in diffs):
                     explained = "every differing (direction, property) has a triple linking two selected nodes (heuristic attribution; frequency ties present)"
+    if expect == "url-looking-literal":
+        url_props = set(("direct", p) for (s_, p, o) in T if M.is_literal(o) and (o.lex.startswith("http://") or o.lex.startswith("https://")))
+        if all(d[2] and d[2] <= url_props for d in diffs):
+            emit("C15:url-looking-literal-read-as-iri:%s" % sel["kind"], "a plain string literal whose text starts with http:// or https:// is read as an IRI "
+                 "over the endpoint (local: xsd:string): %s" % diffs[0][1], queries=res[False][1][:8])
+            return
     if explained:
         emit("C15:inverse-paths:link-between-selected-nodes-counted-twice",
              "inverse_paths over an endpoint: a triple whose subject and object are both selected nodes is fetched by the outgoing AND the incoming query and "
@@ -1454,6 +1472,56 @@ def check_C15(case, B):
     for cat, text, _ in diffs:
         emit("C15:endpoint-vs-local:%s:%s" % (cat, sel["kind"]), "endpoint and local extraction differ (%s, inverse_paths=%r, track=%r): %s"
              % (sel["kind"], inv, track, text), queries=res[False][1][:12])
+
+
+def _literal_queries(log, T):
+    """Queries of the log that ask for the neighbourhood of `<lexical form of a literal of T>` (which is no IRI node of T)."""
+    M = U.lib()[0]
+    lex = set(o.lex for (s, p, o) in T if M.is_literal(o))
+    iris = set(x.iri for (s, p, o) in T for x in (s, o) if isinstance(x, M.IRI))
+    out = []
+    for q in log:
+        body = q[q.upper().rfind("WHERE"):]
+        if any(x in lex and x not in iris for x in re.findall(r"<([^>]*)>", body)):
+            out.append(q.strip())
+    return out
+
+
+def _c15_known_defect_cases(rng, n):
+    """Two small families kept apart from everything else: (a) string literals whose text starts with http:// or https://; (b) {_ p FOCUS}
+    selectors on a property that has literal objects (with and without a blank)."""
+    M, S, G = U.lib()
+    cases = []
+    urls = [M.Lit("http://not.an/iri but text"), M.Lit("https://x.org/y"), M.Lit("http://x.org/a b"), M.Lit("https://"), M.Lit("http://ex.org/n0")]
+    for i in range(n):
+        T = [tr for tr in _c15_graph(rng) if not (tr[1] != M.RDF_TYPE and not M.is_literal(tr[2]))]      # literal-valued and type triples only
+        subjects = U.dedup([s for (s, p, o) in T if p == M.RDF_TYPE])
+        for x in subjects:
+            if rng.random() < 0.8:
+                T.append(M.Triple(x, G.EX + "homepage", rng.choice(urls)))
+            if rng.random() < 0.4:
+                T += [M.Triple(x, G.EX + "see", rng.choice(urls)), M.Triple(x, G.EX + "see", M.IRI(G.OTHER + "u%d" % (i % 2)))]
+        T = U.dedup(T)
+        classes = U.dedup([o.iri for (s, p, o) in T if p == M.RDF_TYPE])
+        sel = ({"kind": "targets", "classes": classes[:2]}, {"kind": "all"},
+               {"kind": "shapemap", "items": [{"sel": {"form": "focus-type", "cls": classes[0]}, "label": U.ALT_SHAPES_NS + "L1"}]},
+               {"kind": "shapemap", "items": [{"sel": {"form": "focus-subj", "p": G.EX + "homepage"}, "label": U.ALT_SHAPES_NS + "L1"}]})[i % 4]
+        cases.append({"pid": "C15", "origin": "url-looking-literals", "nt": U.to_nt(T), "sel": sel, "inverse": False, "track": i % 2 == 1,
+                      "expect": "url-looking-literal"})
+    words = [M.Lit("two words"), M.Lit("x"), M.Lit("a b c"), M.Lit("y"), M.Lit("7", dt=M.XSD_INTEGER)]
+    for i in range(n):
+        a, o1 = M.IRI(G.EX + "s%d" % (i % 3)), M.IRI(G.EX + "o1")
+        T = [M.Triple(a, M.RDF_TYPE, M.IRI(G.CLASS_A)), M.Triple(a, G.PROP_P, words[i % 5]), M.Triple(o1, G.PROP_Q, M.Lit("1", dt=M.XSD_INTEGER))]
+        if i % 2:
+            T.append(M.Triple(a, G.PROP_P, o1))
+        if i % 3 == 0:
+            T.append(M.Triple(M.IRI(G.EX + "t"), G.PROP_P, words[(i + 1) % 5]))
+        items = [{"sel": {"form": "focus-obj", "p": G.PROP_P}, "label": U.ALT_SHAPES_NS + "L1"}]
+        if i % 4 == 0:
+            items.append({"sel": {"form": "focus-type", "cls": G.CLASS_A}, "label": U.ALT_SHAPES_NS + "L2"})
+        cases.append({"pid": "C15", "origin": "object-focus-on-literals", "nt": U.to_nt(U.dedup(T)), "sel": {"kind": "shapemap", "items": items},
+                      "inverse": False, "track": False, "expect": "object-focus-literals"})
+    return cases
 
 
 def _c15_graph(rng):
@@ -1592,6 +1660,7 @@ def gen_C15(tier, rng):
     n_num = {"selftest": 12, "quick": 150, "thorough": 1200}[tier]
     cases += _c15_cap_cases(rng, {"selftest": 8, "quick": 60, "thorough": 400}[tier])
     cases += _c15_same_local_name_cases(rng, {"selftest": 9, "quick": 60, "thorough": 400}[tier])
+    cases += _c15_known_defect_cases(rng, {"selftest": 8, "quick": 40, "thorough": 200}[tier])
     for gi in range(n + n_nonhttp + n_num):
         T = _c15_graph(rng)
         nonhttp = n <= gi < n + n_nonhttp
